@@ -468,6 +468,10 @@ func syncCloneTable(repo string) (string, string, error) {
 	if err != nil {
 		return "", "", err
 	}
+	chClone, err := connectHeaderClone(repo)
+	if err != nil {
+		return "", "", err
+	}
 	pwInKey, dumpPushes, err := poolKeyAndDump(repo)
 	if err != nil {
 		return "", "", err
@@ -584,7 +588,7 @@ func syncCloneTable(repo string) (string, string, error) {
 		"   slices: Cookies, roundTripWrappers, httpRoundTripWrappers, udBeforeRequest, afterResponse, t2.Settings, t2.PriorityFrames\n" +
 		"   maps:   Headers, QueryParams, FormData, PathParams;  t_rt: retryOption;  t_scal: the value-typed settings\n" +
 		"   (by key, Model/Settings.v) Clone carries over *)\n" +
-		"From Coq Require Import List String.\nFrom ReqV Require Import Model.Settings Model.ReExec Model.LiveSel Model.Handshake Model.PoolKey Model.DumpCtx.\nImport ListNotations.\n" +
+		"From Coq Require Import List String.\nFrom ReqV Require Import Model.Settings Model.ReExec Model.LiveSel Model.Handshake Model.PoolKey Model.DumpCtx Model.ConnectHdr.\nImport ListNotations.\n" +
 		"Definition gen_tbl : ctbl :=\n  {| t_sl := [" + strings.Join(sl, "; ") + "];\n     t_mp := [" + strings.Join(mp, "; ") + "];\n     t_rt := " + b(clientDeep["retryOption"]) + ";\n" +
 		"     t_scal := [" + strings.Join(scal, "; ") + "];\n" +
 		"     t_jar := " + b(jarInit) + "; t_dopt := " + b(clientDeep["dumpOptions"]) + "; t_dumper := " + b(optionsCloned && dumperCloned) + "; t_link := " + b(dumpLink) + ";\n" +
@@ -611,7 +615,9 @@ func syncCloneTable(repo string) (string, string, error) {
 		"(* connectMethod.key: the proxy part of the pool key is proxyURL.String() (password included) *)\n" +
 		"Definition gen_key : ktbl := {| k_pw_in_key := " + b(pwInKey) + " |}.\n" +
 		"(* Request.EnableDump stores its dumper without an early return *)\n" +
-		"Definition gen_dump : dtbl := {| d_always_pushes := " + b(dumpPushes) + " |}.\n"
+		"Definition gen_dump : dtbl := {| d_always_pushes := " + b(dumpPushes) + " |}.\n" +
+		"(* dialConn: hdr = hdr.Clone() right before hdr.Set(Proxy-Authorization) *)\n" +
+		"Definition gen_ch : chtbl := {| ch_clone_before_auth := " + b(chClone) + " |}.\n"
 	return "CloneTable.v", out, nil
 }
 
@@ -960,4 +966,58 @@ func poolKeyAndDump(repo string) (pwInKey, dumpPushes bool, err error) {
 		return false, false, fmt.Errorf("request.go: Request.EnableDump not found; Model/DumpCtx.v must be revisited")
 	}
 	return pwInKey, dumpPushes, nil
+}
+
+// connectHeaderClone reads Transport.dialConn (transport.go): the block that sets Proxy-Authorization on the CONNECT
+// header (hdr.Set("Proxy-Authorization", ...)) must assign hdr = hdr.Clone() before it, in the same block.
+func connectHeaderClone(repo string) (bool, error) {
+	fs := token.NewFileSet()
+	f, err := parser.ParseFile(fs, filepath.Join(repo, "transport.go"), nil, 0)
+	if err != nil {
+		return false, err
+	}
+	found, cloned := false, false
+	for _, d := range f.Decls {
+		fd, ok := d.(*ast.FuncDecl)
+		if !ok || fd.Name.Name != "dialConn" || fd.Body == nil {
+			continue
+		}
+		ast.Inspect(fd.Body, func(n ast.Node) bool {
+			blk, ok := n.(*ast.BlockStmt)
+			if !ok {
+				return true
+			}
+			clonedHere := false
+			for _, st := range blk.List {
+				if as, ok := st.(*ast.AssignStmt); ok && len(as.Lhs) == 1 && len(as.Rhs) == 1 {
+					if id, ok := as.Lhs[0].(*ast.Ident); ok && id.Name == "hdr" {
+						if c, ok := as.Rhs[0].(*ast.CallExpr); ok {
+							if sel, ok := c.Fun.(*ast.SelectorExpr); ok && sel.Sel.Name == "Clone" {
+								if x, ok := sel.X.(*ast.Ident); ok && x.Name == "hdr" {
+									clonedHere = true
+								}
+							}
+						}
+					}
+				}
+				if es, ok := st.(*ast.ExprStmt); ok {
+					if c, ok := es.X.(*ast.CallExpr); ok && len(c.Args) == 2 {
+						if sel, ok := c.Fun.(*ast.SelectorExpr); ok && sel.Sel.Name == "Set" {
+							if x, ok := sel.X.(*ast.Ident); ok && x.Name == "hdr" {
+								if lit, ok := c.Args[0].(*ast.BasicLit); ok && lit.Value == "\"Proxy-Authorization\"" {
+									found = true
+									cloned = clonedHere
+								}
+							}
+						}
+					}
+				}
+			}
+			return true
+		})
+	}
+	if !found {
+		return false, fmt.Errorf("transport.go: dialConn no longer sets Proxy-Authorization on hdr; Model/ConnectHdr.v must be revisited")
+	}
+	return cloned, nil
 }
